@@ -54,6 +54,10 @@ def base_spec(b, start):
         # a limit that binds early, then nothing, then pinned work weeks later (same day of month / weekday / week number)
         tasks = [T("a", 240), T("b", 120, start=D(start, 31, "-09:00")), T("c", 180, start=D(start, 28, "-09:00")), T("d", 60, start=D(start, 59, "-10:00"), prio=700),
                  T("e", 300, "r2", deps=[{"ref": "a", "gap": "30d"}])]
+    elif b["dur"] == "21w":
+        # gaps typed in MONTHS (30 days each - not calendar months, which would depend on the position in the year)
+        tasks = [T("a", 240), T("e", 300, "r2", deps=[{"ref": "a", "gap": "1m"}]), T("f", 120, deps=[{"ref": "e", "gap": "2m"}]),
+                 {"id": "m", "milestone": True, "deps": [{"ref": "a", "gap": "3m"}]}]
     elif b["dur"] == "3w":
         tasks = [T("a", 200), T("b", 90, deps=["a"]), T("c", 150, "r2", prio=700), {"id": "m", "milestone": True, "deps": ["c"]}]
         if b["pin"]:
@@ -86,7 +90,9 @@ def long_bases():
             {"cal": "split", "lv": "longproj", "lim": "none", "mode": "asap", "pin": False, "dur": "20w", "long_effort_h": 160},
             {"cal": "night", "lv": "longproj", "lim": "none", "mode": "asap", "pin": False, "dur": "20w", "long_effort_h": 260},
             {"cal": "default", "lv": "longproj", "lim": "none", "mode": "asap", "pin": False, "dur": "20w", "long_effort_h": 260},
-            {"cal": "split", "lv": "longres", "lim": "none", "mode": "asap", "pin": False, "dur": "20w", "long_effort_h": 160}]
+            {"cal": "split", "lv": "longres", "lim": "none", "mode": "asap", "pin": False, "dur": "20w", "long_effort_h": 160},
+            {"cal": "default", "lv": "none", "lim": "none", "mode": "asap", "pin": False, "dur": "21w"},
+            {"cal": "night", "lv": "proj", "lim": "none", "mode": "asap", "pin": False, "dur": "21w"}]
 
 
 def universe(tier):
@@ -104,8 +110,8 @@ def universe(tier):
             for k in ks:
                 yield {"b": b, "start": s, "k": k}
     for b in long_bases():
-        for s in (STARTS if (tier == "thorough" or b["dur"] in ("9w", "20w")) else [STARTS[0], STARTS[3]]):
-            for k in ((1, 52, 53, 104) if (tier == "quick" and b["dur"] not in ("9w", "20w")) else (1, 2, 3, 4, 5, 13, 26, 52, 53, 104, 157)):
+        for s in (STARTS if (tier == "thorough" or b["dur"] in ("9w", "20w", "21w")) else [STARTS[0], STARTS[3]]):
+            for k in ((1, 52, 53, 104) if (tier == "quick" and b["dur"] not in ("9w", "20w", "21w")) else (1, 2, 3, 4, 5, 13, 26, 52, 53, 104, 157)):
                 yield {"b": b, "start": s, "k": k}
 
 
